@@ -1,38 +1,239 @@
-"""Property -> rules table, floors, documentation strings."""
+"""Property -> rules table, floors, documentation strings (DESIGN §4)."""
+import json
+import os
+
 import rules_writer as rw
+import rules_reader as rr
+import rules_dir as rd
+import rules_spill as rs
+import rules_store as st
+import rules_hdr as rh
+import rules_twin as rt
+import rules_taint as tt
+import rules_cfg as rc
 
 TRUSTED_BASE = [
-    "rustc's name resolution, type checking and constant evaluation (facts are read from the compiler's own HIR/typeck tables via pmlint)",
+    "rustc's name resolution, type checking and constant evaluation (facts are read from the compiler's own HIR/typeck tables via the pmlint driver)",
     "the external effect model of absint.py (which std/futures/integer-encoding/serde_json calls read, write, seek or query a stream) — DESIGN §3.6",
-    "library contracts: write_all/read_exact loop on short transfers, take(n) bounds reads, codecs/deku/serde_json return errors instead of panicking",
+    "library contracts: write_all/read_exact/varint codecs loop on short transfers, take(n) bounds reads, deku implements its attribute DSL, codecs/serde_json/hilbert_2d return errors instead of panicking",
+    "the transcription of the PMTiles v3 specification in /verif/spec/v3.json",
 ]
 
 RULE_DOC = {
-    "R-REL": "C18/C01/C02: every header offset/length is relative to the archive start (independent of the stream's starting position P)",
-    "R-LAYOUT-W": "C01/C02/C18: each section's header offset/length equals where and how much the writer actually wrote",
-    "R-ABS": "C18: absolute seeks are P-based; the header lands at P; the stream is left at the archive's end",
-    "R-NO-WRITE-BEFORE-P": "C18: no seek goes below the starting position",
-    "R-SEEK-FIRST": "C17: the writer first skips the header region",
-    "R-HDR-LAST": "C17: the header is the last thing written",
-    "R-HDR-CONST": "C02: spec_version is 3",
-    "R-FIELDMAP": "C01: every header setting is paired with the archive field of the same meaning",
-    "R-COUNTERS": "C02: header counters are the layout result's counters, name for name",
+    "R-REL": "every header offset/length is relative to the archive start (independent of the stream's starting position P)",
+    "R-LAYOUT-W": "each section's header offset/length equals where and how much the writer actually wrote; root directly after the 127-byte header",
+    "R-ABS": "absolute seeks are P-based; the header lands at P; the stream is left at the archive's end",
+    "R-NO-WRITE-BEFORE-P": "no seek goes below the starting position",
+    "R-SEEK-FIRST": "the writer first skips the header region",
+    "R-HDR-LAST": "the header is the last thing written, after every section",
+    "R-HDR-CONST": "spec_version is 3",
+    "R-FIELDMAP": "every header setting is paired with the archive field of the same meaning, in both directions",
+    "R-COUNTERS": "counters are computed once per entry/content and reach the header name for name",
+    "R-ADDR": "registered tile address = tile_data_offset + entry offset, with the same entry's length and id",
+    "R-EXACT-TILE": "a lookup seeks to the stored offset and reads exactly the stored length, once",
+    "R-META0": "metadata length 0 ⇒ empty object without reading; else seek/take/decompress/parse",
+    "R-WALK": "the directory walk expands runs of the entry it stores, recurses with leaf base + entry offset, dispatches on run_length == 0",
+    "R-FIND": "single-directory lookup finds the non-leaf entry whose run contains the id",
+    "R-LAZY": "no tile-data reader is reachable from the opener",
+    "R-BOUNDED-READ": "every read on the open path is the fixed header read or bounded by take(len) after seek(offset) for a header-declared section",
+    "R-COLS": "directory columns are transferred in the spec's order with the spec's integer types, through one codec handle",
+    "R-DELTA": "tile ids are delta coded against the previous id, starting from 0",
+    "R-OFFRULE": "offset column: 0 ⇔ contiguous with the previous entry (index > 0), else offset + 1",
+    "R-LEN0": "an entry length of 0 is refused before it is stored/emitted",
+    "R-BUDGET": "a root directory is committed only after its measured length was compared against 16 257",
+    "R-RESEEK": "every root attempt starts at the remembered root start and nothing moves the stream after the accepted root",
+    "R-LEAFPTR": "leaf pointers carry first id, leaf offset, exact leaf length, run_length 0; the returned leaf bytes belong to the accepted attempt",
+    "R-REJ-EMPTY": "empty content is refused before any mutation",
+    "R-ADD-PAIR": "add = remove old binding, then exactly one consistent insert into each of the three maps",
+    "R-REMOVE-GUARD": "bytes are dropped only when the last referring id went away",
+    "R-LOOKUP": "lookup resolves exactly the requested id; unknown id ⇒ None",
+    "R-HASHID": "content identity must not be decided by the 64-bit hash alone",
+    "R-FINISH-PAIR": "layout appends each new content once, reads the offset before appending, reuses stored (offset,length) on a hit",
+    "R-RLE-DEP": "a run is extended only for the adjacent id with the same offset, by exactly one",
+    "R-ORDER": "hash-map iteration order never reaches the output: sorted ascending by tile id first",
+    "R-CLUSTERED": "clustered=true is backed by the sorted single layout pass",
+    "R-HASH-NOLEAK": "content hashes are only map keys",
+    "R-CFG-JSONORDER": "serde_json key-ordered maps, fixed-key content hash",
+    "R-HDR-LAYOUT": "derived header byte layout equals the v3 table entry by entry (127 bytes)",
+    "R-HDR-REJECT": "wrong magic / version / unknown enum codes have no accepting path in the derived reader",
+    "R-HDR-IO": "header I/O is one read_exact of [u8;127] / one write_all of the serialised header",
+    "R-ROUND": "degrees×1e7 is rounded to nearest before the integer cast; the decoder divides by the same constant",
+    "R-TWIN": "sync and async instantiations of one template are isomorphic modulo the twin table",
+    "R-TWIN-HAND": "hand-written sync/async siblings have the same stream-effect and parser skeleton",
+    "R-FACTORY": "the codec factories agree per Compression variant (family, direction, pass-through)",
+    "R-REJ-UNKNOWN": "Compression::Unknown ⇒ Err in every factory; codecs are only built by the factories",
+    "R-ONESHOT": "one-shot helpers write/drain everything through the factory codec and return the sink",
+    "R-XFER": "no short-transfer primitive is used",
+    "R-XFER-SITE": "inventory of stream transfer sites",
+    "R-NOPOLL": "the crate implements no poll-level I/O itself",
+    "R-RESULT-USED": "no Result or future produced by a call is dropped or swallowed",
+    "R-NO-UNWRAP": "no unwrap/expect/panic in library code",
+    "R-FINALISE": "a codec writer's finishing error can surface (later fallible op on the sink / close().await?)",
+    "R-TAINT-ARITH": "arithmetic on input-derived integers is checked, width-safe, guarded or allow-listed with a reason",
+    "R-TAINT-ALLOC": "allocation sizes derived from input are clamped or bounded by type",
+    "R-TAINT-INDEX": "indexing with/into input-derived data is guarded or allow-listed",
+    "R-REC-BOUND": "recursion threads a constant-bounded depth",
+    "R-RANGE-END": "the inclusive range end is computed without unchecked arithmetic",
+    "R-LEAF-SKIP": "a leaf is skipped only if its first id is strictly beyond the inclusive end",
+    "R-FILTER-GUARD": "every inserted id passed filter_range.contains; the filter is forwarded unchanged",
+    "R-PARTIAL-SAME": "full and partial opens share one implementation, differing only in the range",
+    "R-ZXY-GUARD": "coordinate lookup converts only when z ≤ 31 and x,y < 2^z, else answers no tile",
+    "R-REJ-META": "metadata is accepted only through the Value::Object pattern",
 }
 
 PROPERTIES = {}
 
 
-def prop(pid, rules, floors, explanation, decides, does_not_decide, **kw):
-    PROPERTIES[pid] = dict(rules=rules, floors=floors, explanation=explanation, decides=decides, does_not_decide=does_not_decide, **kw)
+def prop(pid, rules, explanation, decides, does_not_decide, **kw):
+    PROPERTIES[pid] = dict(rules=rules, floors={}, explanation=explanation, decides=decides, does_not_decide=does_not_decide, **kw)
 
 
-prop("C18",
-     rules=[rw.r_layout_w, rw.r_abs],
-     floors={"R-REL": {"all": 16, "default": 8}, "R-LAYOUT-W": {"all": 20, "default": 10}, "R-ABS": {"all": 8, "default": 4},
-             "R-NO-WRITE-BEFORE-P": {"all": 6, "default": 3}},
-     explanation="Affine stream-position analysis of the archive writer (both the sync twin and the async twin that the test suite never compiles): "
-                 "with P the symbolic position at entry, every header offset/length must be P-free and equal to the measured section positions, every "
-                 "absolute seek must carry P with coefficient 1, the header must land at P, no seek may go below P and the stream must be left at the archive end.",
-     decides=["R-REL: 8 offset/length header fields are independent of P", "R-LAYOUT-W: section offsets/lengths equal the measured writes",
-              "R-ABS: SeekFrom::Start targets have P-coefficient 1, header written at P, final position = archive end", "R-NO-WRITE-BEFORE-P"],
-     does_not_decide=["that reading the bytes from P on yields the archive (run-time round trip)", "behaviour of the caller's stream implementation"])
+RUNTIME = "run-time equalities over all inputs (round trips, byte equality with independent codecs) — quantify over values; only the named structural necessary conditions are decided"
+
+prop("C01", [rw.r_layout_w, rw.r_fieldmap_w, rr.r_fieldmap_r, rr.r_addr_open, rr.r_exact_tile, rh.r_round, st.r_hashid, st.r_finish_pair],
+     "Necessary conditions of the write→read round trip, decided on both twins: header settings are paired field by field in writer and opener (R-FIELDMAP), section "
+     "offsets/lengths equal the measured writes (R-LAYOUT-W, affine stream model), the opener rebases entry offsets by tile_data_offset and the lookup reads exactly "
+     "(offset,length) (R-ADDR/R-EXACT-TILE), coordinates are rounded to nearest (R-ROUND), contents are laid out once with offsets read before the append "
+     "(R-FINISH-PAIR), and content identity is not decided by the hash alone (R-HASHID: known finding).",
+     ["R-FIELDMAP", "R-LAYOUT-W", "R-REL", "R-ADDR", "R-EXACT-TILE", "R-ROUND", "R-FINISH-PAIR", "R-COUNTERS", "R-HASHID"],
+     [RUNTIME, "metadata equality through serde_json", "contents larger than 4 GiB"])
+
+prop("C02", [rh.r_hdr_layout, rw.r_hdr_const, rw.r_layout_w, rs.r_budget, st.r_finish_pair, rw.r_fieldmap_w, st.r_order, st.r_clustered, rd.r_cols_writer, rc.r_cfg_jsonorder],
+     "Static agreement of the writer with the v3 specification table (/verif/spec/v3.json, transcribed from the spec): derived header byte layout and enum codes "
+     "(R-HDR-LAYOUT), spec_version 3, sections laid out back to back after the header with offsets equal to the measured positions, root directory ≤ 16 257 bytes, "
+     "counters computed once per entry/content and passed name for name, clustered=true backed by an ascending sort before layout, directory columns in spec order.",
+     ["R-HDR-LAYOUT", "R-HDR-CONST", "R-LAYOUT-W", "R-BUDGET", "R-COUNTERS", "R-FINISH-PAIR", "R-ORDER", "R-CLUSTERED", "R-COLS (encoder)", "metadata field is a JSON object map (type fact)"],
+     [RUNTIME, "that directories decode with an independent reader", "the spec's lookup procedure on produced files"])
+
+prop("C03", [rr.r_walk, rr.r_addr_open, rr.r_exact_tile, rr.r_meta0, rr.r_fieldmap_r, rr.r_find, rd.r_cols_reader, rr.r_rej_meta],
+     "The opener, directory walker, decoder and lazy fetch are checked path by path: runs are expanded for the entry whose offset/length are stored, recursion uses "
+     "leaf base + entry offset and the entry's length, leaf/tile dispatch is on run_length == 0, tile addresses are rebased by tile_data_offset, metadata length 0 "
+     "yields an empty object without reads, settings are reported from the header fields, single-directory lookup uses !leaf && range.contains.",
+     ["R-WALK", "R-ADDR", "R-EXACT-TILE", "R-META0", "R-FIELDMAP (reader)", "R-FIND", "R-COLS/R-DELTA/R-OFFRULE (decoder)"],
+     [RUNTIME, "correctness on every foreign layout at run time"])
+
+prop("C04", [st.r_hashid, st.r_add_pair, st.r_remove_guard, st.r_lookup, st.r_rej_empty, rr.r_exact_tile],
+     "Structural necessary conditions each store mutator must satisfy for the store to behave like a map: add removes the old binding and performs exactly one "
+     "consistent insert into each map, remove drops bytes only under an emptiness test made after removing the id, lookup resolves the requested id and answers None "
+     "for unknown ids, and content identity is not decided by the 64-bit hash alone (R-HASHID: known finding with a concrete colliding pair).",
+     ["R-ADD-PAIR", "R-REMOVE-GUARD", "R-LOOKUP", "R-REJ-EMPTY", "R-HASHID"],
+     ["the representation invariant over arbitrary edit histories (inductive argument over three hash maps is out of reach)", "listing/count agreement over histories"])
+
+prop("C05", [rd.r_cols_reader, rd.r_cols_writer, rd.r_len0_err, rd.r_dir_twins],
+     "Decoder and encoder (sync and async twins) are compared with the spec's column table: count first, then one pass per column in the order id, run length, length, "
+     "offset with integer types u64/u32/u32/u64, all through one codec handle; ids are delta coded from 0; the offset rule's condition and both arms are affine-exact in "
+     "both directions; zero lengths are refused before being stored/emitted.",
+     ["R-COLS", "R-DELTA", "R-OFFRULE", "R-LEN0"],
+     [RUNTIME, "codec round trips (library behaviour)"])
+
+prop("C06", [rs.r_budget, rs.r_leafptr, rs.r_reseek, rw.r_layout_w],
+     "The root writers are analysed with the stream-position model: every Ok exit is dominated by a comparison of the *measured* root length against exactly 16 257 "
+     "(spill: at most), the fitting case returns an empty leaf section, leaf pointers carry chunk[0].tile_id / cursor position before the leaf write / bytes written / "
+     "run_length 0, each retry re-seeks to the remembered start and grows the leaf size, and the archive writer places the returned leaf bytes after the metadata.",
+     ["R-BUDGET", "R-LEAFPTR", "R-RESEEK", "R-LAYOUT-W (leaf section)"],
+     [RUNTIME, "that resolving root+leaves reproduces the entries for every list"])
+
+prop("C07", [tt.r_zxy_guard],
+     "Only the last clause is decided: the coordinate lookups convert (z,x,y) to an id only on paths where z ≤ 31 (exactly) and x,y < 2^z were established (through "
+     "the predicate they call, expanded one level), the shift is evaluated under the zoom guard, and every other path answers Ok(None) or an error.",
+     ["R-ZXY-GUARD"],
+     ["the Hilbert identities (ids equal the spec's, inverse conversion, contiguity, adjacency, child blocks): numerical facts about hilbert_2d over 6·10^18 points — no static argument in reach; explicitly declined"])
+
+prop("C08", [tt.r_taint_arith, tt.r_pow, tt.r_taint_alloc, tt.r_taint_index, tt.r_rec_bound, rt.r_no_unwrap, tt.r_range_end],
+     "A must-be-guarded discipline over the whole crate: every integer operation, allocation size and index whose operands may derive from input bytes (dependence "
+     "analysis with loop-carried sources; caller-chosen coordinates and ids included) must be checked/saturating, discharged by the width domain, guarded by a "
+     "decision on every path, or listed in the reasoned allow-table; recursion must thread a constant-bounded depth; no unwrap/expect/panic exists.",
+     ["R-TAINT-ARITH", "R-TAINT-ALLOC", "R-TAINT-INDEX", "R-REC-BOUND", "R-NO-UNWRAP", "R-RANGE-END"],
+     ["panics inside dependencies", "resource use proportional to declared run lengths (outside the claim)", "taint through closure parameters of iterator adaptors (only tile_id/zxy use them; covered by the allow-table and R-ZXY-GUARD)"])
+
+prop("C09", [rh.r_hdr_layout, rh.r_hdr_io, rh.r_hdr_reject, rh.r_round],
+     "The header's derived byte layout (field order, widths, enum tags, magic, endianness, 8-bit bool, i32 coordinates) is compared entry by entry with the v3 "
+     "table and sums to 127; reader/writer perform exactly one read_exact into [u8;127] / one write_all of the DekuWrite output; magic, assert_eq=3 and exact enum "
+     "code sets leave no accepting path for invalid input; the coordinate writer rounds to nearest before the cast and the reader divides by the same 1e7.",
+     ["R-HDR-LAYOUT", "R-HDR-IO", "R-HDR-REJECT", "R-ROUND"],
+     ["deku's generated code", "the exhaustive 2^32 coordinate claim (implied by R-ROUND and an error bound, not enumerated)"])
+
+prop("C10", [st.r_hashid, st.r_finish_pair, st.r_rle_dep, st.r_remove_guard, st.r_add_pair],
+     "Layout: bytes are appended exactly on the dedup miss, once, with the offset read before the append and the length of the appended content; a hit reuses the "
+     "stored pair; reader-backed tiles are hashed with the same function; a run is extended only for the adjacent id with an equal offset, by one; in memory, bytes "
+     "are dropped only when the last id goes away. R-HASHID (identity by bytes) is a known finding.",
+     ["R-FINISH-PAIR", "R-COUNTERS", "R-RLE-DEP", "R-REMOVE-GUARD", "R-ADD-PAIR", "R-HASHID"],
+     [RUNTIME, "minimality over all duplication patterns", "retention over edit histories"])
+
+prop("C11", [tt.r_range_end, tt.r_leaf_skip_and_filter, tt.r_partial_same],
+     "The inclusive range end is computed without unchecked arithmetic for all three bound kinds; every map insert in the walker is dominated by "
+     "filter_range.contains(&id) for the inserted id and the filter is forwarded unchanged; a leaf is skipped only on `first id > inclusive end` (strict, unbounded ⇒ "
+     "never, independent of the start bound); full and partial opens are one implementation differing only in the range argument.",
+     ["R-RANGE-END", "R-FILTER-GUARD", "R-LEAF-SKIP", "R-PARTIAL-SAME"],
+     [RUNTIME])
+
+prop("C12", [rt.r_twin, rt.r_factory],
+     "Sibling agreement on code the test suite never compiles: every sync/async pair instantiated from one duplicate_item template must be isomorphic after making "
+     "`?`, .await and async blocks transparent and mapping callees through the twin table (Read↔AsyncReadExt, flush↔close for codec writers, read_varint↔_async, local "
+     "f↔f_async; integer type arguments must agree); hand-written pairs must have the same stream-effect/parser skeleton; the four codec factories must agree per variant.",
+     ["R-TWIN", "R-TWIN-HAND", "R-FACTORY"],
+     [RUNTIME, "byte identity of codec outputs"], needs_all_configs=True)
+
+prop("C13", [rt.r_xfer_rule, rt.r_xfer_inventory, rt.r_nopoll, rh.r_hdr_io],
+     "Transfer discipline: no call to a short-transfer primitive (read/write/read_vectored/poll_*) exists in the crate; every stream transfer goes through read_exact, "
+     "read_to_end, write_all, the varint traits, serde_json's reader or a codec adapter (inventory in the evidence); the crate implements no Future/AsyncRead/"
+     "AsyncWrite/Stream itself and touches no poll/waker API, so fragmentation and Pending are handled entirely inside the trusted libraries.",
+     ["R-XFER", "R-NOPOLL", "R-HDR-IO"],
+     ["the libraries' own loops", "results under concrete schedules"])
+
+prop("C14", [rt.r_factory, rt.r_oneshot],
+     "Only structural clauses: the four factories pair the same codec family and the right direction per variant, pass through for None and return Err for Unknown; "
+     "compress_all writes all data, flushes with `?` and returns the sink; decompress_all drains with read_to_end.",
+     ["R-FACTORY", "R-REJ-UNKNOWN", "R-ONESHOT"],
+     ["that compress∘decompress is the identity for every byte string and chunking, and foreign-decoder compatibility: behaviour of flate2/brotli/zstd/async-compression; declined"])
+
+prop("C15", [rt.r_result_used, rt.r_finalise, rt.r_no_unwrap],
+     "Error discipline over the whole crate: every call producing a Result (or a future) has it propagated, returned or matched — never dropped, `let _`, .ok(), "
+     ".unwrap_or*, if-let-Ok-only or an un-awaited future; no unwrap/expect/panic; a sync codec writer over a fallible sink (finished by Drop, which swallows the "
+     "error) must be followed by another fallible operation on the same sink before Ok is returned, and async encoders must be closed after their last write.",
+     ["R-RESULT-USED", "R-NO-UNWRAP", "R-FINALISE"],
+     ["exhaustive fault points at run time", "completeness of library error paths"])
+
+prop("C16", [st.r_order, st.r_hash_noleak, rc.r_cfg_jsonorder, rh.r_round, st.r_finish_pair],
+     "Sources of non-canonical output are closed structurally: the only hash-ordered iteration on the write path is sorted ascending by tile id before layout; content "
+     "hashes are used only as map keys; serde_json is resolved without preserve_order and ahash with fixed keys; stored coordinates survive decode→encode (R-ROUND); "
+     "in-memory and reader-backed tiles take the same layout path.",
+     ["R-ORDER", "R-HASH-NOLEAK", "R-CFG-JSONORDER", "R-ROUND", "R-FINISH-PAIR"],
+     [RUNTIME, "determinism of the codec libraries", "cross-process equality at run time"])
+
+prop("C17", [rw.r_commit_order, rh.r_hdr_io, rh.r_hdr_reject],
+     "Commit ordering on every success path of both writer twins: the first effect on the output is a seek to P+127, every section write precedes the header write, the "
+     "header write is the last write effect, and the header reaches the stream through a single write_all; the reader rejects a missing magic.",
+     ["R-SEEK-FIRST", "R-HDR-LAST", "R-HDR-IO", "R-HDR-REJECT"],
+     ["what a pre-filled stream contained", "atomicity below write_all"])
+
+prop("C18", [rw.r_layout_w, rw.r_abs, rs.r_reseek],
+     "Affine stream-position analysis with P the symbolic position at entry: all eight offset/length header fields are P-free and equal the measured sections, every "
+     "SeekFrom::Start target has P-coefficient 1, the header lands at P, no seek goes below P, the stream is left at the archive end; the directory spill re-seeks to "
+     "the remembered absolute root start.",
+     ["R-REL", "R-LAYOUT-W", "R-ABS", "R-NO-WRITE-BEFORE-P", "R-RESEEK"],
+     ["that reading from P yields the archive (run-time)"])
+
+prop("C19", [st.r_rej_empty, rd.r_len0_err, rd.r_cols_reader, rd.r_cols_writer, rr.r_rej_meta, rt.r_factory],
+     "Each documented rejection is a guard that dominates the effect it protects: the emptiness test precedes every store mutation and its true branch is an error "
+     "exit without mutation; `length == 0` is an error exit before the store/emission in decoder and encoder; metadata is accepted only through the Value::Object "
+     "pattern and both metadata readers end in that check; Unknown ⇒ Err in all four factories and codecs are built nowhere else.",
+     ["R-REJ-EMPTY", "R-LEN0", "R-REJ-META", "R-REJ-UNKNOWN"],
+     ["'leaves the archive unchanged' beyond 'no mutation before the guard'"])
+
+prop("C20", [rr.r_lazy, rr.r_bounded_read, rr.r_exact_tile, rh.r_hdr_io],
+     "Call-graph and read-summary analysis: no function that fetches tile bytes is reachable from the opener; registering a tile has no stream effect; every read on "
+     "the open path is the fixed 127-byte header read or goes through take(len) after seek(Start(off)) with (off,len) a header-declared section or the walker's leaf "
+     "pair; a lookup seeks to the stored offset and performs exactly one read_exact of the stored length.",
+     ["R-LAZY", "R-BOUNDED-READ", "R-EXACT-TILE", "R-HDR-IO"],
+     ["read-ahead inside decoders (bounded by take)", "byte ranges at run time"])
+
+
+# floors: instance counts confirmed on the repaired tree (bin/floors.json is regenerated only by hand with `check.py --freeze-floors`)
+_fl = os.path.join(os.path.dirname(os.path.abspath(__file__)), "floors.json")
+if os.path.exists(_fl):
+    with open(_fl) as _f:
+        _floors = json.load(_f)
+    for _p, _v in _floors.items():
+        if _p in PROPERTIES:
+            PROPERTIES[_p]["floors"] = _v
